@@ -11,7 +11,7 @@ import (
 
 func init() {
 	Register("C18", "Decides structural necessary conditions for regex schemas: (empty) the first/last-byte reads of RSchema.doCompile are guarded, so empty and one-byte texts get a diagnostic; (parity) the delimiter scan is the right table over <escaped, byte class>; (quote) schema text built from a regex schema is quoted by JSON rules, not Go rules; (carry) AST value, Len and the OpenAPI pattern add/strip exactly one pair of delimiters; (once) compiled state is written only under the compile once. Does NOT decide that the pattern is a valid regular expression (delegated to regexp.Compile) nor that the example matches it.",
-		c18empty, c18parity, c18quote, c18carry, inQuotesRule("C18.inquotes"), func(c *core.Ctx) { c03unquoteAs(c, "C18.unquote") }, decodedRule("C18.decoded"), poolRule("C18.pool"), c18pattern, func(c *core.Ctx) { extPanicAs(c, "C18.extpanic") })
+		registerRule("C18.register"), c18empty, c18parity, c18quote, c18carry, inQuotesRule("C18.inquotes"), func(c *core.Ctx) { c03unquoteAs(c, "C18.unquote") }, decodedRule("C18.decoded"), poolRule("C18.pool"), c18pattern, func(c *core.Ctx) { extPanicAs(c, "C18.extpanic") })
 }
 
 func c18empty(c *core.Ctx) {
